@@ -94,13 +94,30 @@ def paev(e):
     raise ValueError('event outside the model alphabet: %r' % (e,))
 
 
-def pevs(log):
-    """tempo_req [notify tempo] tempo_done(fields)  ->  ETempo fields [ENotify STempo]
-    (the setter updates the fields first, then notifies; the fields are read back after it returned)"""
+def pevs(log, src=None):
+    """log -> Coq events.  tempo_req [notify tempo] tempo_done(fields) -> ETempo fields [ENotify STempo]
+    (the setter updates the fields first, then notifies; the fields are read back after it returned);
+    sched_req base -> ESchedCall base delta; sched_ret dropped.  src (optional list) receives, for every
+    Coq event, the index of the log entry it comes from."""
     out, i = [], 0
+    src = [] if src is None else src
+
+    def emit(term, k):
+        out.append(term)
+        src.append(k)
     while i < len(log):
         e = log[i]
-        if e[1] == 'tempo_req':
+        if e[1] == 'sched_req':
+            # sched(d) entered by a non-clock thread; the next event is the time base read by sched
+            if i + 1 >= len(log) or log[i + 1][1] != 'base':
+                raise ValueError('sched(delta) from a non-clock thread did not read the time: %r' % (log[i:i + 3],))
+            emit('ESchedCall %s %s' % (q(log[i + 1][2]), q(e[2])), i)
+            i += 2
+        elif e[1] == 'sched_ret':
+            i += 1
+        elif e[1] == 'base':
+            raise ValueError('unexpected time-base read: %r' % (log[max(0, i - 2):i + 2],))
+        elif e[1] == 'tempo_req':
             j = i + 1
             while j < len(log) and log[j][1] != 'tempo_done':
                 j += 1
@@ -109,11 +126,12 @@ def pevs(log):
             inner = log[i + 1:j]
             if any(not (x[1] == 'notify' and x[2] == 'tempo') for x in inner):
                 raise ValueError('unexpected events inside a tempo/beats setter: %r' % (inner,))
-            out.append(pev(log[j]))
-            out.extend(pev(x) for x in inner)
+            emit(pev(log[j]), j)
+            for n, x in enumerate(inner):
+                emit(pev(x), i + 1 + n)
             i = j + 1
         else:
-            out.append(pev(e))
+            emit(pev(e), i)
             i += 1
     return out
 
@@ -125,21 +143,26 @@ SYS_PREFIX = ['EWaitBegin None']
 def trace_term(r):
     """result of one scenario -> (kind, Coq term) ; raises ValueError for events outside the alphabet"""
     if r['clock'] == 'app':
+        r['_src'] = [None] * len(APP_PREFIX) + list(range(len(r['log'])))
         return 'app', '[' + '; '.join(APP_PREFIX + [paev(e) for e in r['log']]) + ']'
+    src = []
     if r['clock'] == 'sys':
-        evs = SYS_PREFIX + pevs(r['log'])
+        evs = SYS_PREFIX + pevs(r['log'], src)
+        r['_src'] = [None] * len(SYS_PREFIX) + src
         return 'clk', '(KSys, tm_id, [%s])' % '; '.join(evs)
     m = '(mkTM %s %s %s)' % tuple(q(x) for x in r['init_map'])
-    return 'clk', '(KTempo, %s, [%s])' % (m, '; '.join(pevs(r['log'])))
+    evs = pevs(r['log'], src)
+    r['_src'] = src
+    return 'clk', '(KTempo, %s, [%s])' % (m, '; '.join(evs))
 
 
 CLK_CHECKS = ['accepts_quiescent', 'never_early', 'exactly_once+order', 'resched_relative_to_scheduled',
-              'notify_iff_head_changed', 'no_oversleep']
+              'notify_iff_head_changed', 'no_oversleep', 'sched_relative_to_physical_now']
 BODY_CLK = '''
 Definition chk (c : kind * tmap * list event) : list bool :=
   let '(k, m, evs) := c in
   [accepts_quiescent k m evs; mon_never_early m None evs; mon_once [] 0 None evs; mon_resched 0 evs;
-   mon_notify [] 0 evs; mon_no_oversleep (init k m) evs].
+   mon_notify [] 0 evs; mon_no_oversleep (init k m) evs; mon_sched_base m evs].
 Definition ok (c : kind * tmap * list event) : bool := forallb (fun b => b) (chk c).
 Eval vm_compute in bad_idx ok cases.
 '''
@@ -226,6 +249,21 @@ def gen_cross_all(idx, nolock=False):
             idx += 1
             out.append(gen_cross(kind, via, 'sched', idx))
     return out, idx
+
+
+def gen_after_raise(kind, how, idx):
+    """a task raises / raises StopStream / a Routine ends on the clock; then NOTHING is awakened on any clock for 200 ms;
+    then sched(3/8 s) from a helper thread (task 2) and from the process' main thread (task 3) -- on the same clock, or on
+    SystemClock when the first clock is AppClock (AppClock.sched does not use logical time).  Lower bound, measured against
+    the physical time read BEFORE the call: awake - call >= delta - eps (load can only make it later)."""
+    first = {'raise': {'results': [['raise']]}, 'stop': {'results': [['stop']]},
+             'routine': {'routine': 1, 'yield': [1, 64]}}[how]
+    op = 'xsched' if kind == 'app' else 'sched'
+    return {'name': '%s-after-%s' % (kind, how), 'clock': kind, 'index': idx, 'tempo': [1, 1],
+            'tasks': {'1': first, '2': {'results': [['none']]}, '3': {'results': [['none']]}},
+            'threads': [[['sched', 1, 1, 16], ['sleep', 300], [op, 2, 3, 8]]],
+            'main_ops': [[op, 3, 3, 8]],
+            'final': 'clear', 'wait_for': [2, 3], 'before_final': 1.5, 'after_final': 0.02, 'lower_bound': True}
 
 
 def gen_cancel_via(kind, via, idx):
@@ -366,6 +404,10 @@ def program(ctx, rng):
     for kind, via in (('sys', 'app'), ('tempo', 'sys'), ('app', 'sys')):
         idx += 1
         p1.append(gen_cancel_via(kind, via, idx))
+    for kind in ('sys', 'tempo', 'app'):
+        for how in (('raise', 'routine') if ctx.quick else ('raise', 'routine', 'stop')):
+            idx += 1
+            p1.append(gen_after_raise(kind, how, idx))
     p1.append(dict(WINDOW_SC))
     # singletons are stopped last (their threads cannot be restarted)
     idx += 1
@@ -469,6 +511,16 @@ def e2e(sc, r):
         if t0 and (not ran or ran[0] - t0[0] > 1.0):
             v.append(('no_oversleep', 'task scheduled 62.5 ms ahead of a head sleeping until +2 s %s'
                       % ('ran %.3f s later' % (ran[0] - t0[0]) if ran else 'did not run within 1 s')))
+    if sc.get('lower_bound') or sc.get('unique'):
+        tempo = float(Fraction(*sc.get('tempo', [1, 1]))) if sc['clock'] == 'tempo' else 1.0
+        for x in r['scheds']:
+            if x[2] in ('delta', 'xdelta') and (str(x[0]).startswith('client') or x[0] == 'main'):
+                d = float(Fraction(*x[3])) / (tempo if x[2] == 'delta' else 1.0)
+                ran = [a[1] for a in aw if a[0] == x[1]]
+                if ran and ran[0] - x[4] < d - 0.002:
+                    v.append(('never_early', '%s: %s called sched(%.4f s, task %d) at physical time %.4f; the task was awakened '
+                              '%.4f s later, i.e. %.4f s BEFORE its time' % (sc['name'], x[0], d, x[1], x[4], ran[0] - x[4],
+                                                                               d - (ran[0] - x[4]))))
     xa = sc.get('expect_after')
     if xa:
         kinds = {'tempo': ('tempo',), 'beats': ('beats_add',), 'sched': ('delta',)}[xa['op']]
@@ -597,9 +649,9 @@ def correspond(ctx):
             law = [x for x in failed if not x.endswith('accepts_quiescent')]
             ev = None
             if rej is not None:
-                k = rej - (len(APP_PREFIX) if name == 'app' else (len(SYS_PREFIX) if sc['clock'] == 'sys' else 0))
-                ev = {'index_in_log': k, 'event': r['log'][k] if 0 <= k < len(r['log']) else None,
-                      'context': r['log'][max(0, k - 6):k + 2]}
+                k = r['_src'][rej] if rej < len(r.get('_src', [])) else None
+                ev = {'index_in_log': k, 'event': r['log'][k] if k is not None else None,
+                      'context': r['log'][max(0, k - 6):k + 3] if k is not None else None}
             what = ('the logged trace of the real %s clock is not a path of the model (first event the model cannot do: %s)'
                     % (sc['clock'], json.dumps(ev))) if rej is not None else \
                    ('the logged trace of the real %s clock is a path of the model but %s' % (
@@ -640,6 +692,10 @@ def search(ctx, failures):
     scs.append(gen_tempo_ahead(idx))
     cross, idx = gen_cross_all(idx, nolock=True)
     scs.extend(cross)
+    for kind in ('sys', 'tempo', 'app'):
+        for how in ('raise', 'routine', 'stop'):
+            idx += 1
+            scs.append(gen_after_raise(kind, how, idx))
     found, seen = [], set()
     for f in failures:
         sc = f.replay.get('scenario') if isinstance(f.replay, dict) else None
